@@ -44,6 +44,13 @@ theorem pair_sub_left {m k : ℕ} (X X' Y : Matrix (Fin m) (Fin k) α) : pair (X
 theorem pair_sub_right {m k : ℕ} (X Y Y' : Matrix (Fin m) (Fin k) α) : pair X (Y - Y') = pair X Y - pair X Y' := by
   rw [sub_eq_add_neg, pair_add_right, pair_neg_right, sub_eq_add_neg]
 
+theorem pair_sum_left {ι : Type*} {m k : ℕ} (s : Finset ι) (X : ι → Matrix (Fin m) (Fin k) α)
+    (Y : Matrix (Fin m) (Fin k) α) : pair (∑ i ∈ s, X i) Y = ∑ i ∈ s, pair (X i) Y := by
+  classical
+  induction s using Finset.induction_on with
+  | empty => simp [pair]
+  | insert a s ha ih => rw [Finset.sum_insert ha, Finset.sum_insert ha, pair_add_left, ih]
+
 theorem pair_zero_left {m k : ℕ} (Y : Matrix (Fin m) (Fin k) α) : pair 0 Y = 0 := by simp [pair]
 theorem pair_zero_right {m k : ℕ} (X : Matrix (Fin m) (Fin k) α) : pair X 0 = 0 := by simp [pair]
 
